@@ -25,15 +25,24 @@ const char *g_file0;
 /* index of the first character of the first token: after the leading blanks and comments (oracle lex_skip_step);
    at most LOC_SEPS separators (bound of the unit: scankind has two backward `goto again`, which the verifier unwinds
    as a binary tree -- 2^n copies of the switch for n separators) */
-#define LOC_SEPS 3
+#ifndef LOC_SEPS
+#define LOC_SEPS 2
+#endif
 int g_T;
 static int
 loc_T(void)
 {
 	int p = lex_skip_step(g_L, 0);
 
+#if LOC_SEPS >= 2
 	if (p > 0) p = lex_skip_step(g_L, p);
+#endif
+#if LOC_SEPS >= 3
 	if (p > 0) p = lex_skip_step(g_L, p);
+#endif
+#if LOC_SEPS >= 4
+	if (p > 0) p = lex_skip_step(g_L, p);
+#endif
 	return p;
 }
 #define T        g_T
@@ -60,8 +69,8 @@ loc_T(void)
 	/* C11: *loc names the file, physical line and column of the FIRST character of the returned token -- blanks, \
 	   comments (with the lines they span) and splices in front of it are not part of it */ \
 	X(loc->file == g_file0) \
-	X(loc->line == g_pline[TI]) \
-	X(loc->col == g_pcol[TI]) \
+	X(loc->line == g_pline(TI)) \
+	X(loc->col == g_pcol(TI)) \
 	/* 5.1.1.2p1(3) + 6.10.3.2: white space or a comment in front of the token is recorded */ \
 	X(s->sawspace == (g_saw0 || TI > 0)) \
 	/* C13: comments and blanks neither join nor split: the token after them is the one that starts at T */ \
